@@ -55,6 +55,7 @@ A_CONST = 400        # per call
 B_OCTET = 32         # per octet of the datagram (measured on the unchanged tree: at most 4.6; A: at most 143)
 C_SPI = 16           # per SPI declared by a DELETE payload on the payload chain (measured: 4)
 CAP_FACTOR = 4       # the parse is aborted at CAP_FACTOR * bound events
+PARSE_CPU_S = 10.0   # CPU seconds one parse may take outside the counted events (see _parse)
 WATCHDOG_S = 1200    # last resort against a hang outside the monitored files (per work unit)
 
 
@@ -122,6 +123,9 @@ def install_meter():
 def _parse(data, ho, cobj, cap):
     """-> (kind, value, events); kind in ok / proto / foreign / abort / watchdog"""
     _cnt[0], _cnt[1] = 0, cap
+    # time spent where no execution event is counted (C code called by the parser: regular expressions, codecs, bignums)
+    # is bounded in CPU seconds; a parse normally takes well under a millisecond per kilobyte
+    signal.setitimer(signal.ITIMER_VIRTUAL, PARSE_CPU_S)
     try:
         m = message.Message.parse(data, header_only=ho, crypto=cobj)
         return ('ok' if isinstance(m, message.Message) else 'foreign'), m, _cnt[0]
@@ -136,6 +140,7 @@ def _parse(data, ho, cobj, cap):
     except BaseException as ex:   # noqa -- this is the property
         return 'foreign', ex, _cnt[0]
     finally:
+        signal.setitimer(signal.ITIMER_VIRTUAL, 0)
         _cnt[1] = 1 << 62
 
 
@@ -195,7 +200,8 @@ def judge(data, ho, ctx):
                     'does not terminate / superlinear' % (n, CAP_FACTOR, bound, len(data))))
         return out, ('abort',), n, bound
     if kind == 'watchdog':
-        out.append(('terminates', 'watchdog', 'no progress for %d s outside the monitored files' % WATCHDOG_S))
+        out.append(('terminates', 'watchdog', 'one parse of %d octets used more than %.0f s of CPU time outside the counted '
+                    'execution events (or the unit made no progress for %d s)' % (len(data), PARSE_CPU_S, WATCHDOG_S)))
         return out, ('watchdog',), n, bound
     if kind == 'foreign':
         if isinstance(val, BaseException):
@@ -578,8 +584,26 @@ def unit_f(arg):
     return acc.result()
 
 
+def unit_t(arg):
+    """(t) textual fields (identities, vendor IDs) made of long runs of one character class"""
+    lo, hi, layer = arg
+    acc = Acc()
+    k = KEYS[C_KEY][1]
+    for name, t, chain in list(R.text_shapes())[lo:hi]:
+        if layer == 'clear':
+            data = R.header(C_SPI_I, C_SPI_R, t, 34, 0x08, 0, 28 + len(chain)) + chain
+            ctxs = ['none', C_KEY]
+        else:
+            L = R.header(C_SPI_I, C_SPI_R, R.SK, 35, 0x08, 1, 0) + struct.pack('>BBH', t, 0, 0) + chain
+            data = R.frame_sk(L, k, C_IV, aes_enc)
+            ctxs = [C_KEY]
+        acc.case('t-text', layer, data, ctxs, dict(right=C_KEY, unit=name))
+    return acc.result()
+
+
 def run_unit(u):
     signal.signal(signal.SIGALRM, _alarm)
+    signal.signal(signal.SIGVTALRM, _alarm)
     signal.alarm(WATCHDOG_S)
     try:
         return globals()['unit_' + u[0]](u[1])
@@ -589,6 +613,9 @@ def run_unit(u):
 
 def _alarm(*_):
     raise Watchdog()
+
+
+signal.signal(signal.SIGVTALRM, _alarm)
 
 
 NEXTS_OWN = (0, 1, 33, 42, 46, 49, 255) if ck.quick else R.NEXT    # alphabet of a structure's own next octet
@@ -629,6 +656,10 @@ def units():
         for idx in range(len(list(R.scaling_chains(total)))):
             out.append(('f', (total, idx, 'clear')))
             out.append(('f', (total, idx, 'plain')))
+    nt = len(list(R.text_shapes()))
+    for lo in range(0, nt, 64):
+        out.append(('t', (lo, lo + 64, 'clear')))
+        out.append(('t', (lo, lo + 64, 'plain')))
     return out
 
 
